@@ -246,6 +246,17 @@ def run(ctx, args):
         # (-g fastgo:value_type_in_container does not compile: C01 known finding C01-fastgo-value-type-in-container)
         labs += [("fku", prog, ["keep_unknown_fields"]), ("fvt", prog, ["enum_as_int_32", "naming_style=golint"])]
     run_lab(ctx, labs, sc, cases, "fast", 1 if thorough else 2)
+    if thorough:
+        # depth-2 type shapes (containers of containers of containers), a seed-rotated sample of ~240 shapes
+        shapes2 = [s for s in universe.enumerate_shapes(ctx, 2) if json.dumps(s).count('"v"') >= 2]
+        step = max(1, len(shapes2) // 240)
+        pick = shapes2[(ctx.seed % step)::step]
+        prog2 = universe.base_program(pick)
+        prog2["files"][0]["defs"] = [d for d in prog2["files"][0]["defs"]
+                                     if d["name"] in ("E", "In") or d["name"].startswith("W")]
+        sc2 = schemalib.schema_of(prog2)
+        cases2 = c02.gen_cases(ctx, sc2, 12, 1, 1, "narrow", "WireGen[fast d2]")
+        run_lab(ctx, [("fd2", prog2, []), ("fd2td", universe.present_typedef(prog2, 1), [])], sc2, cases2, "fastd2", 3)
     return ctx.finish(
         rule="C02's program universe plus structs with 9/17 required fields, struct map keys and 4-deep containers, "
              "generated with -g fastgo under three presentations; values/perturbed encodings from TLC (WireGen). "
